@@ -1046,6 +1046,12 @@ pub fn splice(
             // an arm with an `if` guard assigns through it -> every postcondition fails spuriously.  Undecided, never an alarm.
             return Err(Lost("unsupported: match-arm `if` guard in a function with `&mut` parameters (Verus mis-resolves final(..) there)".into()));
         }
+        // a loop the contracts say nothing about (the function was rewritten, or a loop was added) cannot be decided:
+        // Verus would fail the postconditions for want of an invariant, which is not a verdict about the code
+        let expected_loops = cl.expected_loops.unwrap_or(cl.loops.len());
+        if scan.loops.len() > expected_loops {
+            return Err(Lost(format!("anchor lost: the function has {} loop(s) but the contracts were written for {} — a loop nobody gave an invariant for is undecided, not refuted", scan.loops.len(), expected_loops)));
+        }
         for (k, t) in &cl.loops {
             let Some(pos) = scan.loops.get(*k) else {
                 return Err(Lost(format!("anchor lost: @loop {k} but the function has {} loops", scan.loops.len())));
